@@ -1200,6 +1200,13 @@ func (m *Memberlist) suspectNode(s *suspect) {
 
 	// If this is us we need to refute, otherwise re-broadcast
 	if state.Name == m.config.Name {
+		// Once Leave has started we no longer defend ourselves: a refutation
+		// here would raise our incarnation behind Leave's back, so that the
+		// departure it is about to announce (at the incarnation it just
+		// read) would be ignored as stale and never be sent.
+		if m.hasLeft() {
+			return
+		}
 		m.refute(state, s.Incarnation)
 		m.logger.Printf("[WARN] memberlist: Refuting a suspect message (from: %s)", s.From)
 		return // Do not mark ourself suspect
@@ -1290,6 +1297,13 @@ func (m *Memberlist) deadNode(d *dead) {
 			m.refute(state, d.Incarnation)
 			m.logger.Printf("[WARN] memberlist: Refuting a dead message (from: %s)", d.From)
 			return // Do not mark ourself dead
+		}
+
+		// Somebody else's claim that we are dead, racing with our own Leave:
+		// ignore it, Leave announces the departure itself (self-signed, so
+		// that peers record a graceful leave rather than a failure).
+		if d.From != d.Node {
+			return
 		}
 
 		// If we are leaving, we broadcast and wait
